@@ -6,7 +6,7 @@
 //! usage: c26 <schedules.ndjson> <out.ndjson> <seed>
 use async_graphql::http::create_multipart_mixed_stream;
 use async_graphql::runtime::Timer;
-use async_graphql::{Response, Value};
+use async_graphql::{Response, ServerError, Value};
 use futures_util::future::BoxFuture;
 use futures_util::{FutureExt, Stream};
 use rand::{Rng, SeedableRng, rngs::StdRng};
@@ -50,6 +50,12 @@ fn tricky(rng: &mut StdRng) -> String {
     (0..rng.gen_range(0..4)).map(|_| ATOMS[rng.gen_range(0..ATOMS.len())]).collect()
 }
 
+/// index of an errors-only response (data null, one error with message "E<i>")
+fn err_index(v: &J) -> Option<u64> {
+    if !v["data"].is_null() { return None; }
+    v.pointer("/errors/0/message").and_then(|m| m.as_str()).and_then(|m| m.strip_prefix('E')).and_then(|n| n.parse().ok())
+}
+
 fn classify(b: &[u8]) -> (String, u64) {
     match b {
         b"--graphql\r\nContent-Type: application/json\r\n\r\n" => ("HDR".into(), 0),
@@ -57,7 +63,7 @@ fn classify(b: &[u8]) -> (String, u64) {
         b"{}\r\n" => ("HB".into(), 0),
         b"--graphql--\r\n" => ("EOF".into(), 0),
         _ => match serde_json::from_slice::<J>(b) {
-            Ok(v) => match v.pointer("/data/i").and_then(|i| i.as_u64()) { Some(i) => ("BODY".into(), i), None => ("OTHER".into(), 0) },
+            Ok(v) => match v.pointer("/data/i").and_then(|i| i.as_u64()).or_else(|| err_index(&v)) { Some(i) => ("BODY".into(), i), None => ("OTHER".into(), 0) },
             Err(_) => ("OTHER".into(), 0),
         },
     }
@@ -96,6 +102,14 @@ fn run(id: usize, sched: &[String], rng: &mut StdRng) -> J {
                 if let Some(tx) = &tx { tx.unbounded_send(resp).unwrap(); }
                 events.push(json!({"ev": "feed", "i": fed}));
             }
+            // an errors-only response (data null) is a response like any other: one part, the stream goes on
+            "feederr" => {
+                fed += 1;
+                payloads.push(json!({"err": format!("E{fed}")}));
+                let resp = Response::from_errors(vec![ServerError::new(format!("E{fed}"), None)]);
+                if let Some(tx) = &tx { tx.unbounded_send(resp).unwrap(); }
+                events.push(json!({"ev": "feed", "i": fed}));
+            }
             "end" => { tx = None; events.push(json!({"ev": "end", "i": 0})); }
             "tick" => { if !finished && !eof_seen.get() && timer.fire() { events.push(json!({"ev": "tick", "i": 0})); } }
             "poll" | "idle" => poll(&mut events, &mut bytes, &mut finished),
@@ -125,6 +139,8 @@ fn run(id: usize, sched: &[String], rng: &mut StdRng) -> J {
                                     else if let Some(i) = v.pointer("/data/i").and_then(|i| i.as_u64()) {
                                         // content must be the fed payload, verbatim
                                         if payloads.get(i as usize - 1).map(|p| Some(p) == v.get("data")).unwrap_or(false) { parts.push(json!(i)); } else { parts.push(json!(-1)); }
+                                    } else if let Some(i) = err_index(&v) {
+                                        if payloads.get(i as usize - 1).map(|p| p["err"] == v["errors"][0]["message"]).unwrap_or(false) { parts.push(json!(i)); } else { parts.push(json!(-1)); }
                                     } else { parts.push(json!(-1)); }
                                 }
                                 _ => { parts.push(json!(-1)); }
